@@ -1470,13 +1470,14 @@ func (c *Ctx) checkForcedDownloadUnderMime() {
 				return false, false
 			}
 			cut := core.AssumedCuts(fn)
-			// only paths on which the test was evaluated: start after the test; conditions that are
-			// materialised booleans (`asAttachment := a || b || ...`) are resolved along those paths
-			for e := range core.PhiCutsFrom(fn, []*ssa.BasicBlock{tcall.Block()}, cut) {
+			// the assumption is about the file (its MIME type passes the test), so every path from the
+			// entry counts, also those that never evaluate the test; conditions that are materialised
+			// booleans (`asAttachment := a || b || ...`) are resolved under the assumption
+			for e := range core.PhiCutsFrom(fn, nil, cut) {
 				cut[e] = true
 			}
 			core.AssumeFn = saved
-			found, _ := core.PathAvoiding(fn, tcall, func(in ssa.Instruction) bool { return in == serve }, func(in ssa.Instruction) bool { return in == set }, cut)
+			found, _ := core.PathAvoiding(fn, nil, func(in ssa.Instruction) bool { return in == serve }, func(in ssa.Instruction) bool { return in == set }, cut)
 			r.Check(!found, "C16.3b-forced-download-holds", fmt.Sprintf("%s: active-content test #%d true => Content-Disposition: attachment before ServeContent", fk(fn), i+1), c.pos(tcall), "",
 				"content of an active type (html, xml, text, application) can be served inline: a request parameter or another branch bypasses the forced download")
 		}
